@@ -399,7 +399,7 @@ class GroupVsStatement(Bounded):
     def bound(self, tier):
         r = 3 if tier == "quick" else 4
         return (f"all position-sorted single-player streams on 2 columns x {r} rows x 5 cell kinds (tap, hold head, roll head, tail, mine) "
-                f"and on 3 columns x 2 rows, x 3 same-beat modes x join on/off x 3x3 orphan policies x 4 type subsets (with and without TAIL); counters on every stream")
+                f"and on 3 columns x 2 rows, x 3 same-beat modes x join on/off x 3x3 orphan policies x 5 type subsets (with and without TAIL, and the empty set); counters on every stream")
 
     def run(self, tier, seed):
         import itertools, time
@@ -409,7 +409,7 @@ class GroupVsStatement(Bounded):
         T = n.NoteType
         kinds = [(T.TAP, None), (T.HOLD_HEAD, None), (T.ROLL_HEAD, 3), (T.TAIL, None), (T.MINE, None)]
         rows = 3 if tier == "quick" else 4
-        subsets = [frozenset(T), frozenset((T.HOLD_HEAD, T.TAIL, T.TAP)), frozenset((T.HOLD_HEAD, T.ROLL_HEAD, T.TAP)), frozenset((T.TAIL, T.MINE))]
+        subsets = [frozenset(T), frozenset((T.HOLD_HEAD, T.TAIL, T.TAP)), frozenset((T.HOLD_HEAD, T.ROLL_HEAD, T.TAP)), frozenset((T.TAIL, T.MINE)), frozenset()]
         cases, failures = 0, []
         import itertools as _it
         for idx, stream in enumerate(_it.chain(grid_streams(2, rows, kinds), grid_streams(3, 2, kinds))):
